@@ -274,6 +274,34 @@ impl Disk {
         d
     }
 
+    /// Power-loss state: every namespace operation of journal[..k] is durable, but
+    /// of the data written to `ino` since its last fsync (within journal[..k]) only
+    /// the first `keep` bytes reached the disk ("rename persisted before the data").
+    pub fn power_loss_state(initial: &Disk, journal: &[Op], k: usize, ino: u64, keep: usize) -> Disk {
+        let k = k.min(journal.len());
+        let last_sync = journal[..k].iter().rposition(|o| matches!(o, Op::Fsync { ino: i } if *i == ino)).map(|i| i + 1).unwrap_or(0);
+        let mut d = initial.clone();
+        let mut left = keep;
+        for (i, op) in journal[..k].iter().enumerate() {
+            match op {
+                Op::Write { ino: wi, off, data } if *wi == ino && i >= last_sync => {
+                    let n = left.min(data.len());
+                    d.apply_write(*wi, *off, &data[..n]);
+                    left -= n;
+                }
+                _ => d.apply(op),
+            }
+        }
+        d
+    }
+
+    /// Bytes written to `ino` in journal[..k] after its last fsync there.
+    pub fn unsynced_bytes(journal: &[Op], k: usize, ino: u64) -> usize {
+        let k = k.min(journal.len());
+        let last_sync = journal[..k].iter().rposition(|o| matches!(o, Op::Fsync { ino: i } if *i == ino)).map(|i| i + 1).unwrap_or(0);
+        journal[last_sync..k].iter().map(|o| if let Op::Write { ino: wi, data, .. } = o { if *wi == ino { data.len() } else { 0 } } else { 0 }).sum()
+    }
+
     /// Digest of the name → (type, content) mapping (what a later process can observe).
     pub fn digest(&self) -> u64 {
         let mut h = crate::prng::fnv64(b"disk");
